@@ -146,5 +146,26 @@ func (p *pg) genC08() (Config, Plan) {
 			break
 		}
 	}
+	// meta store errors on stable calls: a Set that fails must say so, a Get that
+	// fails must not read as "never set"
+	ne := p.r.Pick([]int{50, 35, 15})
+	for k := 0; k < ne; k++ {
+		for tries := 0; tries < 20; tries++ {
+			i := p.r.Intn(len(plan.Ops))
+			op := &plan.Ops[i]
+			if op.Fault != nil {
+				continue
+			}
+			switch op.Kind {
+			case "set":
+				op.Fault = &FaultSpec{Class: "err", Target: "SetStable", K: 0, When: []string{"before", "after"}[p.r.Intn(2)]}
+			case "getstable":
+				op.Fault = &FaultSpec{Class: "err", Target: "GetStable", K: 0, When: "before"}
+			default:
+				continue
+			}
+			break
+		}
+	}
 	return c, plan
 }
